@@ -4,6 +4,8 @@ package rollout
 // are C04 (zz_verif_c04.go); here: the dispatch of doProgressingInRolling and the outcome of cancellation.
 
 import (
+	"time"
+
 	"github.com/openkruise/rollouts/api/v1alpha1"
 	"github.com/openkruise/rollouts/api/v1beta1"
 	"github.com/openkruise/rollouts/pkg/util"
@@ -11,6 +13,7 @@ import (
 	"github.com/openkruise/rollouts/pkg/verifrt"
 	"github.com/openkruise/rollouts/pkg/verifrt/symclient"
 	corev1 "k8s.io/api/core/v1"
+	metav1 "k8s.io/apimachinery/pkg/apis/meta/v1"
 	"k8s.io/client-go/tools/record"
 )
 
@@ -147,9 +150,15 @@ func VerifC10_CancellationOutcome() {
 		return done, nil
 	})
 	newStatus := r.Status.DeepCopy()
-	_, err := rec.reconcileRolloutProgressing(r, newStatus)
+	entry := time.Now()
+	recheck, err := rec.reconcileRolloutProgressing(r, newStatus)
 	cond := util.GetRolloutCondition(*newStatus, v1beta1.RolloutConditionProgressing)
 	succ := util.GetRolloutCondition(*newStatus, v1beta1.RolloutConditionSucceeded)
+	// C07: a clean-up that is not finished (it waits for grace periods that no watched object announces) hands
+	// Reconcile a wake-up in the future — for the rollback as for the completion
+	if !failed && !done && err == nil {
+		verifrt.Assert(recheck != nil && recheck.After(entry), "C07.progressing.pendingCleanupComesWithAWakeUp")
+	}
 	if cancelling {
 		verifrt.Assert(gotReason == v1beta1.FinaliseReasonRollback, "C10.cancelling.usesRollbackSequence")
 	} else {
@@ -243,4 +252,59 @@ func VerifC10_StatusSyncKeepsTheRecordedRevision() {
 	}
 	cond := util.GetRolloutCondition(*newStatus, v1beta1.RolloutConditionProgressing)
 	verifrt.Assert(cond != nil && cond.Reason == r.Status.Conditions[0].Reason, "C10.statusSync.reasonKept")
+}
+
+func VerifC07_PendingCleanupComesWithAWakeUp() { VerifC10_CancellationOutcome() }
+
+// VerifC07_TerminatingAndDisablingWaitsHaveAWakeUp: the clean-up of a deleted or disabled rollout waits for the same
+// grace periods; while it is not finished the reconcile hands back a wake-up in the future, and none of its outcomes
+// is reported early (Terminating completed / phase Disabled only when the clean-up said done).
+func VerifC07_TerminatingAndDisablingWaitsHaveAWakeUp() {
+	vSimple = true
+	r := vCanaryRollout(1, 1)
+	disabling := verifrt.Bool("disabling")
+	if disabling {
+		r.Spec.Disabled = true
+		r.Status.Phase = v1beta1.RolloutPhaseDisabling
+	} else {
+		now := metav1.Now()
+		r.DeletionTimestamp = &now
+		r.Status.Phase = v1beta1.RolloutPhaseTerminating
+		r.Status.Conditions = append(r.Status.Conditions, v1beta1.RolloutCondition{Type: v1beta1.RolloutConditionTerminating, Status: corev1.ConditionTrue, Reason: v1alpha1.TerminatingReasonInTerminating})
+	}
+	cli := &symclient.Client{}
+	rec := c10Reconciler(cli)
+	w := vWorkload()
+	verifrt.Stub(stubGetWorkloadForRef, func(f *util.ControllerFinder, rollout *v1beta1.Rollout) (*util.Workload, error) { return w, nil })
+	done, failed := verifrt.Bool("finalising.done"), verifrt.Bool("finalising.failed")
+	verifrt.Stub(stubDoFinalising, func(rr *RolloutReconciler, c *RolloutContext) (bool, error) {
+		if failed {
+			return false, vErr
+		}
+		return done, nil
+	})
+	newStatus := r.Status.DeepCopy()
+	entry := time.Now()
+	var recheck *time.Time
+	var err error
+	if disabling {
+		recheck, err = rec.reconcileRolloutDisabling(r, newStatus)
+	} else {
+		recheck, err = rec.reconcileRolloutTerminating(r, newStatus)
+	}
+	if failed {
+		verifrt.Assert(err != nil, "C07.exit.errorPropagated")
+		return
+	}
+	verifrt.Assert(err == nil, "C07.exit.noError")
+	if !done {
+		verifrt.Cover("pending")
+		verifrt.Assert(recheck != nil && recheck.After(entry), "C07.exit.pendingCleanupComesWithAWakeUp")
+	}
+	if disabling {
+		verifrt.Assert((newStatus.Phase == v1beta1.RolloutPhaseDisabled) == done, "C18.rollout.disabledOnlyAfterCleanupDone")
+	} else {
+		cond := util.GetRolloutCondition(*newStatus, v1beta1.RolloutConditionTerminating)
+		verifrt.Assert(cond != nil && (cond.Reason == v1alpha1.TerminatingReasonCompleted) == done, "C18.rollout.terminationCompletedOnlyAfterCleanupDone")
+	}
 }
